@@ -1,5 +1,6 @@
 import Octo.Drv.Codec
 import Octo.Spec.Kleene
+import Octo.Model.LogicTypecheck
 /-! C11 driver: model outputs and the property oracle (judge) for the line protocol (see harness/c11.go). -/
 namespace Octo.Drv.C11
 open Octo Octo.Codec Octo.Logic
@@ -189,8 +190,85 @@ def filterLine (out : List Msg) (st : String) : String :=
 def cutStream (failAt : Int) (msgs : List Msg) : List Msg × Bool :=
   if failAt < 0 then (msgs, false) else (msgs.take failAt.toNat, true)
 
+/-! ### logical layer (`ltreeall`) -/
+
+partial def parseUTree : List String → Option (UTree × List String)
+  | "c" :: v :: r => (triOfTok v).map fun t => (.const t, r)
+  | "v" :: n :: r => some (.var n.toNat!, r)
+  | "a" :: r => do let (l, r) ← parseUTree r; let (x, r) ← parseUTree r; pure (.and l x, r)
+  | "o" :: r => do let (l, r) ← parseUTree r; let (x, r) ← parseUTree r; pure (.or l x, r)
+  | "!" :: r => do let (a, r) ← parseUTree r; pure (.not a, r)
+  | "z" :: r => do let (a, r) ← parseUTree r; pure (.isNull a, r)
+  | "Z" :: r => do let (a, r) ← parseUTree r; pure (.isNotNull a, r)
+  | _ => none
+
+def parseBTy (s : String) : Option BTy :=
+  if s == "B" then some .b else if s == "N" then some .n else if s == "BN" then some .bn else none
+
+/-- a typed tree in the wire encoding (what the Go driver prints for the typechecker's output) -/
+partial def encodeTTree : TTree → List String
+  | .const ty t => ["C", encodeTy ty, encodeValue t.toValue]
+  | .var ty n => ["V", encodeTy ty, toString n]
+  | .fail ty tag => ["F", encodeTy ty, encodeName nmPanic, "0", "1", "C", "Str", "s" ++ hexOfBytes tag]
+  | .and ty args => ["A", encodeTy ty, toString args.length] ++ args.flatMap encodeTTree
+  | .or ty args => ["O", encodeTy ty, toString args.length] ++ args.flatMap encodeTTree
+  | .not ty a => ["F", encodeTy ty, encodeName nmNot, "0", "1"] ++ encodeTTree a
+  | .isNull ty a => ["F", encodeTy ty, encodeName nmIsNull, "0", "1"] ++ encodeTTree a
+  | .isNotNull ty a => ["F", encodeTy ty, encodeName nmIsNotNull, "0", "1"] ++ encodeTTree a
+
+def colDomain : BTy → List Tri
+  | .b => [some true, some false]
+  | .n => [none]
+  | .bn => [some true, some false, none]
+
+/-- every record that conforms to the column types, first column slowest -/
+def recordsOf : List BTy → List (List Tri)
+  | [] => [[]]
+  | c :: cs => (colDomain c).flatMap fun t => (recordsOf cs).map (t :: ·)
+
+structure LOp where
+  cols : List BTy
+  u : UTree
+
+def parseLOp (toks : List String) : Option LOp :=
+  match toks with
+  | k :: rest => do
+    let k := k.toNat!
+    let cols ← (rest.take k).mapM parseBTy
+    let (u, _) ← parseUTree (rest.drop k)
+    pure { cols := cols, u := u }
+  | [] => none
+
+def modelLogical (toks : List String) : String :=
+  match parseLOp toks with
+  | none => "bad-op"
+  | some op =>
+    match typecheckU op.cols op.u with
+    | none => "typecheck-panic"
+    | some (t, _) =>
+      let x := materialize [List.range op.cols.length] t.toP
+      let outs := (recordsOf op.cols).map fun a => resStr (eval [a.map Tri.toValue] x)
+      String.intercalate " " (encodeTTree t) ++ " | " ++ String.intercalate " " outs
+
+/-- oracle: the Kleene value of the *untyped* expression on every conforming record — no typing hypothesis at all -/
+def judgeLogical (toks : List String) (out : List String) : String :=
+  match parseLOp toks with
+  | none => "ok"
+  | some op =>
+    if out == ["typecheck-panic"] then "ok"
+    else
+      let results := (out.dropWhile (· != "|")).drop 1
+      let exps := (recordsOf op.cols).map fun a =>
+        encodeValue (op.u.kleene (fun n => (a[n]?).getD none)).toValue
+      if results.length != exps.length then "bad wrong-number-of-results"
+      else
+        match (exps.zip results).find? (fun (e, o) => e != o) with
+        | some (e, o) => s!"bad not-kleene expected={e} got={o}"
+        | none => "ok"
+
 def model (toks : List String) : String :=
   match toks with
+  | "ltreeall" :: rest => modelLogical rest
   | "treeall" :: k :: tree =>
     let k := k.toNat!
     match parseTree tree with
@@ -288,6 +366,7 @@ def filterSpec (t : TTree) (names : List Nat) : List Msg → Option (List Msg ×
 def judge (toks : List String) (out : List String) : String :=
   let outS := String.intercalate " " out
   match toks with
+  | "ltreeall" :: rest => judgeLogical rest out
   | "treeall" :: k :: tree =>
     let k := k.toNat!
     let names := List.range k
